@@ -170,8 +170,8 @@ def intCmp (f : Int → Int → Bool) (a b : V) : Except Fail V :=
 /-- Strict binary operators (`&&`, `||` are in `evalE`). -/
 def binop (op : BinOp) (a b : V) : Except Fail V :=
   match op with
-  | .eq => (vEq a b).map .bool
-  | .ne => (vEq a b).map fun r => .bool (!r)
+  | .eq => (match vEq a b with | .ok r => .ok (.bool r) | .error f => .error f)
+  | .ne => (match vEq a b with | .ok r => .ok (.bool (!r)) | .error f => .error f)
   | .lt => intCmp (fun x y => decide (x < y)) a b
   | .le => intCmp (fun x y => decide (x ≤ y)) a b
   | .gt => intCmp (fun x y => decide (x > y)) a b
@@ -371,7 +371,7 @@ def lhsNames : Es → Option (List String)
   | .cons (.var x) t => (lhsNames t).map (x :: ·)
   | .cons _ _ => none
 
-def bind (x : String) (v : V) (env : Env) : Env := if x = "_" then env else (x, v) :: env
+def bindVar (x : String) (v : V) (env : Env) : Env := if x = "_" then env else (x, v) :: env
 
 def setMouse (env : Env) (f : Mouse → Mouse) : Except Fail Env :=
   match env.lookup "mouse" with
@@ -418,7 +418,7 @@ def assign1 (name : String) (v : V) (st : St) : R :=
     (match v with
      | .int n => (match setMouse st.env fun m => { m with row := n } with | .ok e => .norm { st with env := e } | .error f => .fail f)
      | _ => .fail (.stuck "mouse.Row"))
-  else if localNames.contains name then .norm { st with env := bind name v st.env }
+  else if localNames.contains name then .norm { st with env := bindVar name v st.env }
   else .fail (.stuck ("assignment to " ++ name))
 
 /-- `name |= v` — only `mouse.Modifiers` in these bodies. -/
@@ -512,15 +512,15 @@ mutual
     | .typeSwitch bnd x cases, st =>
       match evalE c st.env st.vs x with
       | .ok (.seq s) =>
-        afterSwitch (execTy c (seqTypeName s) { st with env := bind bnd (.seq s) st.env }
-          (fun _ => execDefault c { st with env := bind bnd (.seq s) st.env } cases) cases)
+        afterSwitch (execTy c (seqTypeName s) { st with env := bindVar bnd (.seq s) st.env }
+          (fun _ => execDefault c { st with env := bindVar bnd (.seq s) st.env } cases) cases)
       | .ok _ => .fail (.stuck "type switch subject")
       | .error f => .fail f
     | .forRange _ v x body, st =>
       match evalE c st.env st.vs x with
       | .ok xv =>
         (match rangeItems xv with
-         | some items => loop (fun st' it => execSs c body { st' with env := bind v it st'.env }) items st
+         | some items => loop (fun st' it => execSs c body { st' with env := bindVar v it st'.env }) items st
          | none => .fail (.stuck "range"))
       | .error f => .fail f
     | .expr e, st =>
@@ -554,7 +554,7 @@ mutual
     | .cons l t =>
       match evalE c st.env st.vs l with
       | .ok lv =>
-        (match vEq lv tv with
+        (match vEq tv lv with
          | .ok true => .ok true
          | .ok false => labelHit c tv st t
          | .error f => .error f)
@@ -574,12 +574,16 @@ end
 def ctx0 (b64 : List Nat → Option (List Nat)) : Ctx :=
   { b64 := b64, parseMouse := fun _ => .error (.stuck "no callee"), resize := fun _ => .fail (.stuck "no callee") }
 
-/-- `parseMouseEvent(seq)` run on its regenerated body: the pair `(mouse, ok)`. -/
-def runPm (s : Seq) : Except Fail V :=
-  match execSs (ctx0 fun _ => none) Gen.InputBody.pm { env := [("seq", .seq s)], vs := {} } with
+/-- The value a finished run returns. -/
+def retVal (r : R) : Except Fail V :=
+  match r with
   | .ret _ v => .ok v
   | .fail f => .error f
   | _ => .error (.stuck "no return")
+
+/-- `parseMouseEvent(seq)` run on its regenerated body: the pair `(mouse, ok)`. -/
+def runPm (s : Seq) : Except Fail V :=
+  retVal (execSs (ctx0 fun _ => none) Gen.InputBody.pm { env := [("seq", .seq s)], vs := {} })
 
 /-- `vx.Resize()` run on its regenerated body. -/
 def runRz (st : St) : R :=
@@ -592,14 +596,18 @@ def runRz (st : St) : R :=
 def ctxHs (b64 : List Nat → Option (List Nat)) : Ctx :=
   { b64 := b64, parseMouse := runPm, resize := runRz }
 
-/-- `handleSequence(seq)` run on its regenerated body from the state `vs`: the new state and the
-effects performed, in order, each with the way its statement is written. -/
-def runHs (b64 : List Nat → Option (List Nat)) (vs : VState) (s : Seq) : Except Fail (VState × List KEff) :=
-  match execSs (ctxHs b64) Gen.InputBody.hs { env := [("seq", .seq s)], vs := vs } with
+/-- What a finished run of `handleSequence` leaves: the new state and the effects performed. -/
+def finish (r : R) : Except Fail (VState × List KEff) :=
+  match r with
   | .norm st => .ok (st.vs, st.effs)
   | .ret st _ => .ok (st.vs, st.effs)
   | .fail f => .error f
   | _ => .error (.stuck "break outside a loop")
+
+/-- `handleSequence(seq)` run on its regenerated body from the state `vs`: the new state and the
+effects performed, in order, each with the way its statement is written. -/
+def runHs (b64 : List Nat → Option (List Nat)) (vs : VState) (s : Seq) : Except Fail (VState × List KEff) :=
+  finish (execSs (ctxHs b64) Gen.InputBody.hs { env := [("seq", .seq s)], vs := vs })
 
 /-- How the hand model's effect is written according to the send kinds of the source. -/
 def kindOf (k : Kinds) : Effect → SendKind
